@@ -154,4 +154,36 @@ PROPS["C16"] = {
     "assumptions": ["H-asn1: the decoded struct fields are what the DER encodes"],
 }
 
+def nt_c15(lhs, impl):
+    f = lhs.split(" ")
+    vals = [x for x in f[3:] if "." not in x and not x.isdigit()]
+    pat = []
+    for v in vals[:4]:
+        b = _hexbytes(v)
+        pat.append("".join(chr(c) if chr(c) in ',+"\\<>;# =' else ("N" if c == 0 else ("u" if c >= 0x80 else "a")) for c in b[:6]))
+    return (f[2], tuple(pat))
+
+PROPS["C15"] = {
+    "modules": ["WhatIs.Props.C15"],
+    "theorems": ["WhatIs.C15.names_safe", "WhatIs.C15.attrTypeName_safe", "WhatIs.C15.dn_readback", "WhatIs.C15.no_forge",
+                 "WhatIs.C15.table_names_injective_partial", "WhatIs.C15.table_names_injective"],
+    "facts": {"x500.nameCount": 97},
+    "nontrivial": nt_c15,
+    "rule": "DER RDNSequences through names.FromRawDN: single-attribute names with values exhaustive for length <= 3 (thorough 4) over "
+            "{, + \" \\ < > ; # space a e-acute = NUL}; random names of 0..8 RDNs incl. multi-valued RDNs, table and arbitrary OIDs, "
+            "PrintableString/UTF8String/IA5String encodings, random Unicode. The implementation's string is parsed by the RFC 4514 reader "
+            "(Spec) and compared with the library-decoded attribute list. distinct non-trivial = distinct (#RDNs, special-character "
+            "pattern of the first four values)",
+    "design_ref": "DESIGN.md §5 C15",
+    "level_text": "Proof: for ALL RDN sequences and ALL rune strings as values, the RFC 4514 reader applied to the rendered name returns "
+                  "exactly the (type name, value) sequence, most specific first (so no value can forge, merge or hide a component); every "
+                  "type name in the regenerated table is safe. Type names determine the OID: the regenerated table is proved injective "
+                  "(the ldapUrl collision 2.5.4.95/96, defect D37, was repaired).",
+    "level_note": "Trusted: Lean kernel; translator; encoding/asn1+pkix decoding of the RDNSequence (oracle: harness passes the "
+                  "library-decoded attributes); model covers string-typed values (non-string ASN.1 values are outside the property's quantifier).",
+    "technique": "Lean 4 proof (left-inverse of the renderer under an independently written RFC 4514 reader) + regenerated table + differential correspondence",
+    "trusted_base": ["encoding/asn1 + crypto/x509/pkix decoding of RDNSequence (oracle)", "UTF-8 decode model (Base/Utf8.lean)"],
+    "assumptions": ["attribute values are ASN.1 string types"],
+}
+
 NOT_CLAIMED = {}
